@@ -3,20 +3,55 @@ use vcore::{checks, util};
 fn main() {
     let args: Vec<String> = std::env::args().collect();
     if args.len() < 2 {
-        eprintln!("usage: verif <Cxx> [--tier quick|thorough]");
+        eprintln!("usage: verif <Cxx> [--tier quick|thorough] [--replay file]");
         std::process::exit(2);
     }
     let id = args[1].clone();
+    // child-process entry points (process-global state must be observed in fresh processes)
+    match id.as_str() {
+        "c12child" => {
+            checks::c12::child(&args[2..]);
+            return;
+        }
+        "c12replay" => {
+            checks::c12::replay_child(&args[2..]);
+            return;
+        }
+        "c12portfolio" => {
+            checks::c12::portfolio_child(&args[2..]);
+            return;
+        }
+        _ => {}
+    }
     let mut tier = std::env::var("VERIF_TIER").unwrap_or_else(|_| "quick".to_string());
+    let mut replay: Option<String> = None;
     let mut i = 2;
     while i < args.len() {
         if args[i] == "--tier" && i + 1 < args.len() {
             tier = args[i + 1].clone();
             i += 1;
+        } else if args[i] == "--replay" && i + 1 < args.len() {
+            replay = Some(args[i + 1].clone());
+            i += 1;
         }
         i += 1;
     }
-    let seed = util::seed_from_env();
+    let mut seed = util::seed_from_env();
+    if let Some(path) = &replay {
+        // a replay file records the seed and tier of the run that found the violation; re-running the
+        // check with them regenerates the same workload deterministically
+        if let Ok(s) = std::fs::read_to_string(path) {
+            if let Ok(v) = serde_json::from_str::<serde_json::Value>(&s) {
+                if let Some(x) = v["seed"].as_u64() {
+                    seed = x;
+                }
+                if let Some(t) = v["tier"].as_str() {
+                    tier = t.to_string();
+                }
+                println!("replaying {} (signature {}): seed {seed}, tier {tier}", path, v["signature"]);
+            }
+        }
+    }
     if id != "C12" {
         util::quiet_stderr();
         util::silence_panics();
